@@ -552,10 +552,22 @@ impl OwnedLazyValue {
         if status == HasEsc::None {
             Self(LazyPacked::NonEscStrRaw(raw))
         } else {
-            Self(LazyPacked::Raw(LazyRaw {
+            Self::from_raw(raw)
+        }
+    }
+
+    // A raw value that is not known to be an unescaped string. `LazyRaw` only represents
+    // numbers, strings, arrays and objects, so the literals are stored in parsed form (as the
+    // parser itself does in `get_owned_lazyvalue`).
+    fn from_raw(raw: FastStr) -> Self {
+        match raw.as_bytes().first() {
+            Some(b't') => Self(LazyPacked::Parsed(Parsed::Bool(true))),
+            Some(b'f') => Self(LazyPacked::Parsed(Parsed::Bool(false))),
+            Some(b'n') => Self(LazyPacked::Parsed(Parsed::Null)),
+            _ => Self(LazyPacked::Raw(LazyRaw {
                 raw,
                 parsed: AtomicPtr::new(std::ptr::null_mut()),
-            }))
+            })),
         }
     }
 
@@ -593,10 +605,7 @@ impl<'de> From<LazyValue<'de>> for OwnedLazyValue {
             return Self(LazyPacked::NonEscStrRaw(raw));
         }
 
-        Self(LazyPacked::Raw(LazyRaw {
-            raw,
-            parsed: AtomicPtr::new(std::ptr::null_mut()),
-        }))
+        Self::from_raw(raw)
     }
 }
 
